@@ -242,6 +242,79 @@ def gen_bindet(rng):
     return last
 
 
+def gen_nearmiss(rng):
+    """'binary near-miss': mixed instances in which EVERY integer variable x_j has a row with right-hand side 1 where it is the only
+    integer column and has coefficient 1 - but a random subset of these rows also carries continuous columns (x_j - 2y <= 1,
+    x_j + y <= 1), so they are no unit bounds; occasionally one integer gets another near-miss instead (2 x_j <= 1, 2 x_j <= 2,
+    x_j + x_k <= 1, rhs 1.0 / coefficient 1.0 as floats).  A coupling row x_i + K x_d <= K with a dearer driver and a row
+    k x_f <= k-1 keep the root relaxation inside [0,1] and fractional, while integer points (using the continuous slack) reach
+    x_i >= 2.  Small boxes: the exact oracle judges.  Redrawn until the exact root relaxation has all integers in [0,1], one fractional."""
+    last = None
+    for _ in range(80):
+        n = rng.choice([2, 3, 3, 4, 4])
+        allv = list(range(n))
+        ints = sorted(rng.sample(allv, rng.randint(1, n - 1)))
+        cont = [j for j in allv if j not in ints]
+        u = [rng.randint(2, 4) if j in ints else rng.randint(1, 3) for j in allv]
+        rows = []
+        carriers = []                                  # integers whose rhs-1 row has a negative continuous column
+        for j in ints:
+            r = [0] * n
+            r[j] = rng.choice([1, 1, 1.0])
+            kind = rng.choices(["genuine", "neg", "pos", "mixed", "other"], [25, 35, 15, 15, 10])[0]
+            rhs = rng.choice([1, 1, 1.0])
+            if kind == "neg":
+                r[rng.choice(cont)] = -rng.choice([1, 2, 2, 3])
+                carriers.append(j)
+            elif kind == "pos":
+                r[rng.choice(cont)] = rng.choice([1, 2])
+            elif kind == "mixed":
+                for y in cont:
+                    r[y] = rng.choice([-2, -1, 0, 1])
+                if any(r[y] < 0 for y in cont):
+                    carriers.append(j)
+            elif kind == "other":
+                form = rng.choice(["2x<=1", "2x<=2", "x+xk<=1", "x<=1+"])
+                if form == "2x<=1":
+                    r[j] = 2
+                elif form == "2x<=2":
+                    r[j], rhs = 2, 2
+                elif form == "x+xk<=1" and len(ints) > 1:
+                    r[rng.choice([t for t in ints if t != j])] = 1
+                else:
+                    rhs = 1 + rng.choice([0.5, 1])
+            rows.append((r, rhs))
+            if rng.random() < 0.15:
+                rows.append((list(r), rhs))
+        for j in allv:
+            rows.append(([1 if t == j else 0 for t in allv], u[j]))
+        i = rng.choice(carriers) if carriers and rng.random() < 0.85 else rng.choice(ints)
+        d = rng.choice([j for j in allv if j != i])
+        K = rng.randint(2, max(2, min(u[i], 3)))
+        r = [0] * n
+        r[i], r[d] = 1, K
+        rows.append((r, K))
+        f = d if rng.random() < 0.6 else rng.choice(ints)
+        k = rng.choice([2, 3, 3])
+        r = [0] * n
+        r[f] = k
+        rows.append((r, k - 1))
+        c = [rng.choice([0, 0, 1]) if j in ints else -rng.choice([0, 0, 1]) for j in allv]
+        c[i] = rng.randint(2, 4)
+        c[d] = c[i] * K + rng.randint(1, 2)
+        minimize = rng.random() < 0.5
+        if minimize:
+            c = [-v for v in c]
+        rng.shuffle(rows)
+        inst = {"c": c, "A": [list(a) for a, _ in rows], "b": [bb for _, bb in rows], "ints": ints, "minimize": minimize,
+                "family": "nearmiss", "x0": [0] * n}
+        last = inst
+        st, x, _, _ = _root_lp(inst)
+        if st == "OPTIMAL" and all(0 <= x[j] <= 1 for j in ints) and any(x[j].denominator != 1 for j in ints):
+            return inst
+    return last
+
+
 def gen_variants(rng, inst, k):
     n = len(inst["c"])
     out = [_norm_var({"heuristics": False})]
@@ -1011,6 +1084,10 @@ def run(ctx: Ctx):
     for _ in range(ctx.budget(150, 1500)):
         inst = gen_bindet(ctx.rng)
         items.append((inst, gen_variants(ctx.rng, inst, 2)))
+    for _ in range(ctx.budget(150, 1500)):
+        inst = gen_nearmiss(ctx.rng)
+        items.append((inst, [_norm_var({"heuristics": False}), _norm_var({"form": ctx.rng.choice(FAM.FORMS)}),
+                             _norm_var({"lns_iterations": ctx.rng.choice([0, 3]), "solution_limit": ctx.rng.choice([1, 1, 3])})]))
     # ---- round-2 families (HARDENING.md): H events, M magnitudes, S sizes, O option sweeps (I forms: in gen_variants; A: in _work)
     for inst in FAM.event_corpus(ctx.budget(6, 12)):
         items.append((inst, [_norm_var({"heuristics": False}), _norm_var({}), _norm_var({"lns_iterations": 3, "form": "tuple"})]))
@@ -1072,6 +1149,8 @@ def run(ctx: Ctx):
     spec_cases, spec_metas, gate_cases, gate_metas = [], [], [], []
     for (inst, variants), (tr, outs, verdicts, ports, grp) in zip(items, results):
         ctx.count("family", inst.get("family", "?"))
+        if inst.get("family", "") == "nearmiss" and tr[0] == "OPT":
+            ctx.count("nearmiss_optimum_needs_int_ge_2", any(v >= 2 for j, v in enumerate(tr[2]) if j in inst["ints"]))
         if inst.get("family", "").startswith("bindet") and tr[0] == "OPT":
             ctx.count("bindet_optimum_needs_int_ge_2", any(tr[2][j] >= 2 for j in inst["ints"]))
         ctx.count("exact_verdict", tr[0])
@@ -1086,9 +1165,10 @@ def run(ctx: Ctx):
             ctx.count("opt_solution_limit", var["solution_limit"])
             ctx.count("opt_warm", "none" if var["warm_start"] is None else "given")
             ctx.count("opt_limits", ("iter" if var["max_iter"] is not None else "") + ("nodes" if var["max_nodes"] is not None else "") or "default")
-            if bad and inst.get("family", "").startswith("observation:"):
-                # badly scaled inputs outside the property's quantifier: counted, never a violation
-                ctx.count("observation_only_rejects", inst["family"] + ": " + " ".join(bad.split()[:4]))
+            if inst.get("family", "").startswith("observation:"):
+                # inputs outside the property's quantifier: counted, never a violation, not sent to the Coq checks either
+                ctx.count("observation_only_rejects" if bad else "observation_only_accepted",
+                          inst["family"] + (": " + " ".join(bad.split()[:4]) if bad else ""))
                 continue
             if bad:
                 ctx.count("oracle_rejects", inst.get("family", "?").split(":")[0] + ": " + " ".join(bad.split()[:4]))
